@@ -161,6 +161,12 @@ func VerifH_C18_intToString_roundtrip() {
 	i2s := verifHandler(getIntToStringFunction()).(func(int64) string)
 	s2i := verifHandler(getStringToIntFunction()).(func(string) (int64, error))
 	x := verifrt.NondetInt64("x")
+	if m := int64(verifrt.Param("absmax", 0)); m > 0 {
+		// stated bound: the string theory's int<->string conversion over the full 64-bit range is
+		// beyond the solvers here (unknown after 10 min); the extreme values are covered by
+		// VerifH_C18_stringToInt_edges
+		verifrt.Assume(x >= -m && x <= m)
+	}
 	s := i2s(x)
 	r, err := s2i(s)
 	verifrt.Assert(err == nil, "stringToInt(intToString(x)) has no error")
@@ -180,8 +186,9 @@ func verifOutputPattern(f schema.CallableFunction) string {
 func VerifH_C18_stringToInt_edges() {
 	fn := getStringToIntFunction()
 	s2i := verifHandler(fn).(func(string) (int64, error))
-	lits := []string{"9223372036854775807", "-9223372036854775808", "-0", "007", "9223372036854775808", "-9223372036854775809", "99999999999999999999999"}
-	want := []int64{9223372036854775807, -9223372036854775808, 0, 7}
+	// leading zeros are admitted by the pattern and must not switch the base ("010" is ten, not eight)
+	lits := []string{"9223372036854775807", "-9223372036854775808", "-0", "007", "010", "-012", "0100", "9223372036854775808", "-9223372036854775809", "99999999999999999999999"}
+	want := []int64{9223372036854775807, -9223372036854775808, 0, 7, 10, -12, 100}
 	k := verifrt.Choice("literal", len(lits))
 	verifrt.Assert(verifrt.MatchGoRegex(lits[k], verifParamPattern(fn, 0)), "literal admitted by the parameter pattern")
 	r, err := s2i(lits[k])
